@@ -644,6 +644,7 @@ def probe_fixes(run, report=True):
             if ok and report:
                 run.notes.append(f"{k}: {f['id']} ({f.get('signature', {}).get('class', '')}) is listed known but its stored input now imports with the "
                                  f"intended meaning: the status is stale (flip it to fixed); the repaired transcription is the model for this run")
+                print(f"NOTE: property={PID} stale status: {run.notes[-1]}", flush=True)
         else:
             state[k] = not holds
             how[k] = "fixed, stored input imports as intended: repaired transcription" if ok else (
